@@ -4,7 +4,6 @@ mod cmd_fun2core;
 mod consts;
 mod pipe;
 mod cmd_genfun;
-mod consts;
 mod gen_fun;
 mod gen_fun_ast;
 mod gen_fun_eval;
